@@ -1157,6 +1157,58 @@ def _k(key):
 # ---------------------------------------------------------------------------
 
 
+STE_ELEMS = (('char', 1, ''), ('unsigned short', 2, 'u'), ('unsigned', 4, 'U'))
+STE_STRINGS = ('', 'a', 'abc')
+STE_N = 6
+
+
+def string_then_element_units():
+    """(source, {object name: expected image bytes}) for character arrays initialised by a string that is shorter than the array and
+    then patched by one or two element designators, at EVERY index (inside the literal, on its null, directly behind it, further
+    behind, the last element), as a structure member and as a row of a two-dimensional array, for 1-, 2- and 4-byte elements."""
+    for et, w, pre in STE_ELEMS:
+        for st in STE_STRINGS:
+            lit = '%s"%s"' % (pre, st)
+            base = [ord(c) for c in st] + [0] * (STE_N - len(st))
+            desigs = [((i, 0x41 + i),) for i in range(STE_N)] + [((i, 0x61), (j, 0x62)) for i in range(STE_N) for j in range(STE_N) if i != j and abs(i - j) <= 2]
+            decls, exp = [], {}
+            for k, ds in enumerate(desigs):
+                vals = list(base)
+                for i, v in ds:
+                    vals[i] = v
+                img = b''.join(int(v).to_bytes(w, 'little') for v in vals)
+                dm = ', '.join('.s[%d] = %d' % (i, v) for i, v in ds)
+                dr = ', '.join('[0][%d] = %d' % (i, v) for i, v in ds)
+                decls.append('struct { %s s[%d]; int k; } m%d = { .s = %s, %s, .k = 7 };' % (et, STE_N, k, lit, dm))
+                koff = (STE_N * w + 3) // 4 * 4
+                exp['m%d' % k] = img + b'\0' * (koff - STE_N * w) + (7).to_bytes(4, 'little')
+                decls.append('%s r%d[2][%d] = { %s, %s };' % (et, k, STE_N, lit, dr))
+                exp['r%d' % k] = img + b'\0' * (STE_N * w)
+            yield '\n'.join(decls) + '\n', exp, (et, st)
+
+
+def string_then_element(chk):
+    srv = fs.server('fs')
+    n = 0
+    for src, exp, (et, st) in string_then_element_units():
+        r = srv.compile(src, cpu_s=10)
+        if r.status != 0:
+            chk.violation('string-then-element/rejected', 'unit rejected (status %s): %s' % (r.status, r.err[:200]), files={'input.c': src.encode()})
+            continue
+        objs = L.parse_qbe_data(r.out)
+        for name, img in exp.items():
+            n += 1
+            o = objs.get(name)
+            got = bytes(o.image) if o is not None else None
+            want = img
+            if got != want:
+                line = [l for l in src.split('\n') if (' %s ' % name) in l or (' %s[' % name) in l or ('} %s =' % name) in l]
+                pos = 'string-then-element/%s' % ('member' if name.startswith('m') else 'row')
+                chk.violation(pos, '%s: expected image %s, data definition gives %s' % (line[0] if line else name, want.hex(), got.hex() if got is not None else None),
+                              files={'input.c': ((line[0] if line else src) + '\n').encode()}, cmd='$CPROC_QBE input.c')
+    return n
+
+
 def shared_typedef(chk):
     """Objects declared through one typedef of an array of unknown size: every initialiser completes the type of ITS object only
     (static and automatic storage, int/char/struct elements, string initialisers).  Expected sizes follow from the initialiser."""
@@ -1295,13 +1347,15 @@ def main(chk):
     for s in strata:
         chk.strata[s] = strata[s]
     nshared = shared_typedef(chk)
+    nste = string_then_element(chk)
     cov = {
         'states': len(states),
         'transitions': len(trans),
         'traces_validated_against_impl': tot['evals'],
         'samples': samples or [{'none': True}],
-        'evaluations': tot['evals'] + tot['cross_target'] + tot['d_compared'] + tot['variants'] + nshared,
+        'evaluations': tot['evals'] + tot['cross_target'] + tot['d_compared'] + tot['variants'] + nshared + nste,
         'shared_typedef_units': nshared,
+        'string_then_element_objects': nste,
         'thread_and_compound_literal_variants_compared': tot['variants'],
         'cases': tot['cases'],
         'cases_per_type': per_type,
